@@ -103,19 +103,32 @@ def transient(r):
     return r == "missing" or r.startswith("timeout") or r.startswith("abort") or r.startswith("skipped") or r.startswith("panic")
 
 
+def hline(cid, body, n):
+    """harness line for a goal whose results are the variables A1..An of `body`: the body runs inside findall/3 so
+    that no intermediate (possibly partial-list) term is bound to a query variable; backslashes are escaped for the
+    harness' field syntax."""
+    for i in range(n, 0, -1):
+        body = re.sub(r"\bA%d\b" % i, "ZO%d" % i, body)
+    outs_in = ",".join("ZO%d" % i for i in range(1, n + 1))
+    outs = ",".join("A%d" % i for i in range(1, n + 1))
+    q = "%s,findall(x(%s),(%s),[x(%s)])." % (PRELUDE, outs_in, body, outs)
+    q = q.replace("\\", "\\\\").replace("\n", "\\n").replace("\t", "\\t").replace("\r", "\\r")
+    return "Q\t%s\t1\t%s" % (cid, q)
+
+
 # ------------------------------------------------------------------ cases
 
 def atom_case(i, cps):
     cid = "a%d" % i
-    q = ("%s,atom_codes(Z,%s),"
+    q = ("atom_codes(Z,%s),"
          "write_term_to_chars(Z,[quoted(true),numbervars(true)],ZQ),maplist(char_code,ZQ,A1),"
          "write_term_to_chars(Z,[quoted(true),ignore_ops(true)],ZK),maplist(char_code,ZK,A2),"
          "write_term_to_chars(Z,[quoted(true)],ZT),maplist(char_code,ZT,A3),"
          "write_term_to_chars(Z,[numbervars(true)],ZW),maplist(char_code,ZW,A4),"
          "append(ZQ,\" .\",ZQ1),catch((read_from_chars(ZQ1,ZB),(ZB==Z->A5=same;A5=diff)),error(_,_),A5=err),"
-         "atom_chars(Z,ZR),append(ZR,\" .\",ZR1),catch((read_from_chars(ZR1,ZC),(ZC==Z->A6=same;A6=diff)),error(_,_),A6=err)."
-         % (PRELUDE, codes_pl(cps)))
-    return {"id": cid, "kind": "atom", "cps": cps, "impl": ["Q\t%s\t1\t%s" % (cid, q)]}
+         "atom_chars(Z,ZR),append(ZR,\" .\",ZR1),catch((read_from_chars(ZR1,ZC),(ZC==Z->A6=same;A6=diff)),error(_,_),A6=err)"
+         % codes_pl(cps))
+    return {"id": cid, "kind": "atom", "cps": cps, "impl": [hline(cid, q, 6)]}
 
 
 OPERANDS = [("a", "a"), ("b1", "b1"), ("foo", "foo"), ("'A'", "A"), ("'a b'", "a b"), ("''", ""), ("[]", "[]"), ("'{}'", "{}"),
@@ -123,10 +136,10 @@ OPERANDS = [("a", "a"), ("b1", "b1"), ("foo", "foo"), ("'A'", "A"), ("'a b'", "a
             ("'_x'", "_x"), ("!", "!"), ("a0", "a0"), ("'a+'", "a+"), ("&", "&"), ("'.a'", ".a"), ("'#.'", "#."), ("'\\\\'", "\\")]
 NUMBERS = ["0", "1", "7", "10", "123", "100000000000000000000", "00"]
 OPNAMES = [("foo", "foo"), ("a1", "a1"), ("op0", "op0"), ("'A'", "A"), ("'a b'", "a b"), ("'a+'", "a+"), ("'+a'", "+a"),
-           ("+", "+"), ("-", "-"), ("*", "*"), ("=..", "=.."), ("\\+", "\\+"), ("\\", "\\"), ("#", "#"), ("**", "**"), ("-->", "-->"),
-           (":", ":"), ("^", "^"), ("@", "@"), ("<-", "<-"), ("'/*'", "/*"), ("'.'", "."), ("..", ".."), ("'-.'", "-."), ("'0'", "0"),
+           ("++", "++"), ("-*", "-*"), ("=.", "=."), ("\\-", "\\-"), ("\\\\", "\\\\"), ("#", "#"), ("***", "***"), ("--->", "--->"),
+           ("::", "::"), ("^^", "^^"), ("@", "@"), ("<-", "<-"), ("'/*'", "/*"), ("..", ".."), ("'-.'", "-."), ("'0'", "0"),
            ("'x0'", "x0"), ("'_'", "_"), ("'\\n'", "\n"), ("''''", "'"), ("é", "é"), ("'É'", "É"), ("'e'", "e"),
-           ("'$'", "$"), ("mod", "mod"), ("is", "is"), ("=", "="), ("'1'", "1"), ("'0x'", "0x"), ("' '", " ")]
+           ("'$$'", "$$"), ("modd", "modd"), ("iss", "iss"), ("=+", "=+"), ("'1'", "1"), ("'0x'", "0x"), ("' '", " ")]
 INFIX = ["xfx", "xfy", "yfx"]
 
 
@@ -172,12 +185,12 @@ def adj_items(rng, n):
 
 def adj_case(i, it):
     cid = "j%d" % i
-    q = ("%s,catch((op(%d,%s,%s),ZD=yes),error(_,_),ZD=no),ZT=%s,"
+    q = ("catch((op(%d,%s,%s),ZD=yes),error(_,_),ZD=no),ZT = (%s),"
          "write_term_to_chars(ZT,[quoted(true),numbervars(true)],ZQ),maplist(char_code,ZQ,A1),"
          "append(ZQ,\" .\",ZQ1),catch((read_from_chars(ZQ1,ZB),(ZB==ZT->A2=same;A2=diff)),error(_,_),A2=err),"
-         "(ZD==yes->A3=declared;A3=refused),catch(op(0,%s,%s),_,true)."
-         % (PRELUDE, it["pri"], it["typ"], it["op_pl"], it["term"], it["typ"], it["op_pl"]))
-    return {"id": cid, "kind": "adj", "it": it, "impl": ["Q\t%s\t1\t%s" % (cid, q)]}
+         "(ZD==yes->A3=declared;A3=refused),catch(op(0,%s,%s),_,true)"
+         % (it["pri"], it["typ"], it["op_pl"], it["term"], it["typ"], it["op_pl"]))
+    return {"id": cid, "kind": "adj", "it": it, "impl": [hline(cid, q, 3)]}
 
 
 # term text, expected token list (model Tok syntax, texts as strings)
@@ -240,21 +253,21 @@ def tok_show(t):
 
 def gold_case(i, g):
     cid = "g%d" % i
-    q = ("%s,ZT=%s,write_term_to_chars(ZT,[quoted(true),numbervars(true)],ZQ),maplist(char_code,ZQ,A1),"
-         "append(ZQ,\" .\",ZQ1),catch((read_from_chars(ZQ1,ZB),(ZB==ZT->A2=same;A2=diff)),error(_,_),A2=err)."
-         % (PRELUDE, g[1]))
-    return {"id": cid, "kind": "gold", "gold": list(g), "impl": ["Q\t%s\t1\t%s" % (cid, q)]}
+    q = ("ZT = (%s),write_term_to_chars(ZT,[quoted(true),numbervars(true)],ZQ),maplist(char_code,ZQ,A1),"
+         "append(ZQ,\" .\",ZQ1),catch((read_from_chars(ZQ1,ZB),(ZB==ZT->A2=same;A2=diff)),error(_,_),A2=err)"
+         % g[1])
+    return {"id": cid, "kind": "gold", "gold": list(g), "impl": [hline(cid, q, 2)]}
 
 
 def file_case(i, cps, tmpdir):
     cid = "f%d" % i
     path = os.path.join(tmpdir, "c55_%d_%s.txt" % (os.getpid(), cid))
-    q = ("%s,atom_codes(Z,%s),"
+    q = ("atom_codes(Z,%s),"
          "open(\"%s\",write,ZS1),writeq(ZS1,Z),close(ZS1),open(\"%s\",read,ZI1),get_n_chars(ZI1,_,ZC1),close(ZI1),maplist(char_code,ZC1,A1),"
          "open(\"%s\",write,ZS2),write_canonical(ZS2,Z),close(ZS2),open(\"%s\",read,ZI2),get_n_chars(ZI2,_,ZC2),close(ZI2),maplist(char_code,ZC2,A2),"
-         "open(\"%s\",write,ZS3),write(ZS3,Z),close(ZS3),open(\"%s\",read,ZI3),get_n_chars(ZI3,_,ZC3),close(ZI3),maplist(char_code,ZC3,A3)."
-         % (PRELUDE, codes_pl(cps), path, path, path, path, path, path))
-    return {"id": cid, "kind": "file", "cps": cps, "path": path, "impl": ["Q\t%s\t1\t%s" % (cid, q)]}
+         "open(\"%s\",write,ZS3),write(ZS3,Z),close(ZS3),open(\"%s\",read,ZI3),get_n_chars(ZI3,_,ZC3),close(ZI3),maplist(char_code,ZC3,A3)"
+         % (codes_pl(cps), path, path, path, path, path, path))
+    return {"id": cid, "kind": "file", "cps": cps, "path": path, "impl": [hline(cid, q, 3)]}
 
 
 # ------------------------------------------------------------------ extraction hook (core.run_check step 2)
